@@ -17,6 +17,7 @@ func init() {
 			"R7.2 its argument is MinShard itself or carries the bound facts ≥ MinShard and ≤ MaxShard (clamps recognised through phis and edge conditions; assumption min ≤ max); " +
 			"R7.3 its argument is ≥ the current shard count (length of the unfiltered list; assumption current ≤ max as in the statement) unless it flows from the idle scan, which is only called under 'no space needed ∧ max-idle-time ≠ 0'; the scale-up function's result is ≥ the length of its argument, which must be the unfiltered list; " +
 			"R7.4 in the idle scan every decrement of the returned count happens for the shard at the loop index of a loop walking down from the last index, under in-sync ∧ planned set empty ∧ idle-since reported ∧ idle duration > max-idle-time, and every iteration that does not decrement leaves the loop (contiguous from the tail). " +
+			"R7.5 when the scan empties the shard at index i the destinations offered are list[0:i], the shards in front of it. " +
 			"Not decided: clock arithmetic, the shard manager's behaviour.",
 		Assumptions: []string{"go/types and go/ssa are correct", "min-shard ≤ max-shard and current count ≤ max-shard (as in the property statement)", "int32 conversions do not overflow"}})
 }
@@ -141,6 +142,7 @@ func runC07(p *engine.Prog, r *engine.Report) {
 	r.Min("R7.2-within-bounds", 1)
 	r.Min("R7.3-not-below-current", 1)
 	r.Min("R7.4-idle-scan", 1)
+	r.Min("R7.5-destinations-in-front", 1)
 	spaceT := p.Named(pkgCoord, "space")
 	n := 0
 	scanChecked := map[*ssa.Function]bool{}
@@ -469,6 +471,55 @@ func (c *coord) checkIdleScan(r *engine.Report, fn *ssa.Function) {
 	}
 	if nDec == 0 {
 		r.Add("R7.4-idle-scan", "decrements in "+engine.FuncName(fn), engine.FuncName(fn), "the idle scan lowers the count by explicit decrements", "none found (result computed differently)", engine.Undecided)
+	}
+	c.checkIdleDestinations(r, fn)
+}
+
+// checkIdleDestinations (R7.5): when the scan empties the shard at index i, the shards offered as destinations are the
+// ones in front of it (list[0:i]). Any other list may contain the tail shards the scan has just counted as removable:
+// a target would be given to a shard in the very cycle that requests the count without it.
+func (c *coord) checkIdleDestinations(r *engine.Report, fn *ssa.Function) {
+	fi := c.p.Info(fn)
+	var list *ssa.Parameter
+	for _, q := range fn.Params {
+		if isSliceOfPtrTo(q.Type(), c.shardInfo) {
+			list = q
+		}
+	}
+	if list == nil {
+		return
+	}
+	for _, in := range allInstrs(fn) {
+		call, ok := in.(*ssa.Call)
+		if !ok || call.Call.StaticCallee() == nil || !engine.InPkg(call.Call.StaticCallee(), pkgCoord) {
+			continue
+		}
+		// (…, src = list[i], destinations) - the source is an element of the scanned list
+		var idx ssa.Value
+		var dst ssa.Value
+		for _, a := range call.Call.Args {
+			if u, ok := a.(*ssa.UnOp); ok {
+				if ia, ok := u.X.(*ssa.IndexAddr); ok && ia.X == ssa.Value(list) {
+					idx = ia.Index
+				}
+			}
+			if isSliceOfPtrTo(a.Type(), c.shardInfo) {
+				dst = a
+			}
+		}
+		if idx == nil || dst == nil {
+			continue
+		}
+		ck := "destinations of " + engine.FuncName(call.Call.StaticCallee()) + " in " + engine.FuncName(fn)
+		sl, ok := dst.(*ssa.Slice)
+		switch {
+		case !ok || sl.X != ssa.Value(list):
+			r.Add("R7.5-destinations-in-front", ck, "call at "+c.at(call), "destinations are the shards in front of the one being emptied (list[0:i])", "the list passed is "+short(fi.T(dst).S)+": it may contain tail shards already counted as removable", engine.Violated)
+		case sl.Low != nil && !(fi.T(sl.Low).IsConst() && fi.T(sl.Low).K == 0), sl.High == nil || fi.T(sl.High).S != fi.T(idx).S:
+			r.Add("R7.5-destinations-in-front", ck, "call at "+c.at(call), "destinations are the shards in front of the one being emptied (list[0:i])", "the list passed is "+short(fi.T(dst).S)+" while the source is at index "+short(fi.T(idx).S), engine.Violated)
+		default:
+			r.Add("R7.5-destinations-in-front", ck, "call at "+c.at(call), "destinations are the shards in front of the one being emptied (list[0:i])", short(fi.T(dst).S), engine.Discharged)
+		}
 	}
 }
 
